@@ -146,6 +146,10 @@ def t_expect(ctx):
     async def main():
         reg0 = registry()
         res['reg0'] = reg0
+        if ctx.cfg.get('warn_error'):
+            # the application runs with warnings promoted to errors (-W error / pytest filterwarnings = error)
+            import warnings
+            warnings.simplefilter('error')
         if variant == 'blocked':
             zbus.dispatch(OT(p=0, event_timeout=30.0))     # Z's handler holds the global lock for d_z
             await asyncio.sleep(0)
@@ -223,6 +227,11 @@ def t_expect(ctx):
         if got == 'cancelled':
             ctx.witness('cancelled')
             continue
+        if isinstance(got, Exception):
+            # the call itself was refused (e.g. a duplicate-handler-name warning promoted to an error): nothing to match, but the
+            # registry clauses above still apply
+            ctx.witness('expect raised')
+            continue
         if got == 'timeout':
             ctx.witness('timeout')
             ctx.check('C18.first_match', znot(zor(*[cond(e, s, t, True) for (e, s, t) in cands])) if cands else True, tag=tag, got='timeout')
@@ -260,6 +269,7 @@ def jobs(tier):
         for rng in (['0', '1/20'], ['1/20', '1/10'], ['1/10', '1/5'], ['1/5', '3/10'], ['3/10', '2/5']):
             out.append(Job('C18', 's1.expect', t_expect, dict(variant='slow_timeout', sym_te=False, t_e='0', pmax=1, ds_range=rng)))
         out.append(Job('C18', 's1.expect', t_expect, dict(variant='override', sym_te=False, t_e='0', pmax=1)))
+        out.append(Job('C18', 's1.expect', t_expect, dict(variant='two', sym_te=False, t_e='0', pmax=0, warn_error=True, pin_g1='1/10')))
         for tau in ('0', '-1/10'):
             out.append(Job('C18', 's1.expect', t_expect, dict(variant='basic', sym_te=True, pmax=0, tau=tau, pin_g1='1/10'), witnesses=('timeout',)))
         out.append(Job('C18', 's1.expect', t_expect, dict(variant='clear_during', sym_te=False, t_e='0', pmax=0), witnesses=('cleared while pending',)))
